@@ -121,13 +121,13 @@ Print Assumptions C15_routing_size.
    fancy-indexes (sort order!) or converts it before its length and finiteness are checked; the eight
    _setup_* families, adaptive_minmax and the aspls methods do validate theirs; and the keyword arrays
    that optimize_extended_range forwards (method_kws['weights'/'alpha']) are only ever extended by
-   np.pad(..., 'constant') -- never the source of a (broadcasting) store -- before the inner method
-   validates their length. *)
+   np.pad(..., 'constant'), directly or after a _check_optional_array length validation -- never the source
+   of a (broadcasting) store -- before the inner method validates their length. *)
 Theorem C15_array_validation_first : forall t : list aentry,
   array_routing_ok t = true ->
   (forall e, In e t -> a_arg e <> forwarded_arg -> exists rest, a_events e = AValidate :: rest) /\
   (forall e, In e t -> a_arg e = forwarded_arg ->
-     a_events e <> [] /\ forall a, In a (a_events e) -> a = APad) /\
+     a_events e <> [] /\ forall a, In a (a_events e) -> a = APad \/ a = AValidate) /\
   (forall r, In r required_arrays -> exists e, In e t /\ amatches r e = true).
 Proof. exact array_routing_sound. Qed.
 Print Assumptions C15_array_validation_first.
@@ -139,10 +139,12 @@ Print Assumptions C15_array_routing_checked.
 (* CHECK_FINITE FORWARDING.  Every validation call site of the wrappers (_register.inner, 1-D and 2-D, both
    the branch for objects with x-values and the one without), the constructors, the _setup_* methods and
    the registered methods passes check_finite=self._check_finite on (fail-closed: a call without it, or
-   an inlined replacement, fails the check). *)
+   an inlined replacement, fails the check).  The only exception is a PRE-validation of a keyword array
+   (method_kws[key] in optimize_extended_range): it is handed on to the inner registered method, whose own
+   validation sees it again with the fitter's flag (np.pad keeps non-finite values; covered by the oracle). *)
 Theorem C15_check_finite_forwarded : forall t : list centry,
   finite_routing_ok t = true ->
-  (forall e, In e t -> c_forwarded e = true) /\
+  (forall e, In e t -> c_forwarded e = true \/ c_prevalidation e = true) /\
   (forall td fn n, In (td, fn, n) finite_required -> (n <= count_sites td fn t)%nat).
 Proof. exact finite_routing_sound. Qed.
 Print Assumptions C15_check_finite_forwarded.
